@@ -875,6 +875,7 @@ class CSSCalc(CSSFunction):
             Prod(
                 name='CALC',
                 match=lambda t, v: t == types.FUNCTION and normalize(v) == 'calc(',
+                toSeq=lambda t, tokens: (t[0], normalize(t[1])),
             ),
             _S(0),
             _operant(),
